@@ -1,8 +1,157 @@
-(* C19 -- property theorems (stub while the correspondence is being built) *)
-From Coq Require Import List Arith ZArith NArith Bool.
+(* C19 -- Discovery responder: bounded well-formed answers, unkillable by datagrams.
+   Property theorems only; each is closed by a lemma of Lemmas*.v.  c ranges over all constructor arguments
+   (equipment id, version, description of Unicode scalar values, any interface list, broadcast flag), ins over
+   all histories of the socket (datagrams with what json.loads makes of them, socket errors).
+   The pinned code violates the property in three ways (Refuted.v); the theorems below state what does hold,
+   with the exact guard that excludes each finding. *)
+From Coq Require Import List Arith ZArith NArith Bool Lia String.
 Import ListNotations.
-Require Import FV.Gen.C19 FV.C19.Model.
+Require Import FV.Gen.C19 FV.C19.Model FV.C19.LemmasUtf8 FV.C19.LemmasJson FV.C19.Lemmas FV.C19.Refuted.
+Open Scope N_scope.
 
-Theorem C19_source_facts : run_shape = true /\ budget_shape = true.
-Proof. split; reflexivity. Qed.
+(* obligations on the facts regenerated from /repo (Gen/C19.v): the source still has the modelled shape *)
+Theorem C19_source_facts :
+  run_shape = true /\ budget_shape = true /\ init_assignments = true /\
+  dumps_compact_no_ascii_escape = true /\
+  msg_keys = [s2l "SECoP"; s2l "port"; s2l "equipment_id"; s2l "firmware"; s2l "description"] /\
+  msg_values = [s2l "'node'"; s2l "port"; s2l "self.equipment_id"; s2l "self.firmware"; s2l "self.description"] /\
+  getmsg_args = [s2l "self"; s2l "port"] /\
+  firmware_prefix = s2l "FRAPPY " /\
+  loads_catches = [s2l "json.JSONDecodeError"] /\
+  filter_expr = s2l "'SECoP' not in request or request['SECoP'] != 'discover'" /\
+  broadcast_not_guarded_by_enabled = true /\
+  server_passes_opened_interfaces = true /\ interfaces_registered_after_open = true /\
+  tcp_port_parse_agrees = true /\
+  budget_port = 65535 /\ (0 < MAX_MESSAGE_LEN)%Z /\ (0 < recv_bufsize)%nat /\ 0 < UDP_PORT.
+Proof. repeat split; try reflexivity; apply Nat.ltb_lt; reflexivity. Qed.
+
+(* 1. at most MAX_MESSAGE_LEN (508) bytes for every port a TCP server can listen on, whenever the responder is
+      enabled *)
+Theorem C19_bounded : forall c port,
+  wf_cfg c -> l_enabled (init c) = true -> port <= 65535 ->
+  (blen (message (init c) port) <= MAX_MESSAGE_LEN)%Z.
+Proof. exact bounded. Qed.
+
+(* 2. every message is valid UTF-8 and a JSON object that reads back as exactly the port, the equipment id, the
+      firmware string and the description the listener holds, which is a prefix of the configured one *)
+Theorem C19_wellformed : forall c port,
+  wf_cfg c -> port <= 65535 ->
+  let l := init c in
+  utf8_decode (message l port) = Some (msg_text port (l_eid l) (l_fw l) (l_desc l)) /\
+  read_msg (msg_text port (l_eid l) (l_fw l) (l_desc l))
+    = Some (port, c_eid c, firmware_prefix ++ c_version c, l_desc l) /\
+  prefix_of (l_desc l) (desc0 c).
+Proof. exact wellformed. Qed.
+
+(* 3. truncation on a character boundary: the description kept is a prefix (in whole code points) of the
+      configured one; it is the whole one if the message fits; and if a character was dropped, it would not have
+      fitted into the bytes that raw-length budgeting grants *)
+Theorem C19_char_boundary : forall c,
+  valid (desc0 c) ->
+  prefix_of (l_desc (init c)) (desc0 c) /\ valid (l_desc (init c)) /\
+  ((blen (message (base c) budget_port) <= MAX_MESSAGE_LEN)%Z -> init c = base c) /\
+  (forall ch rest, l_enabled (init c) = true -> desc0 c = l_desc (init c) ++ ch :: rest ->
+     (rawlen (desc0 c) + avail c < rawlen (l_desc (init c) ++ [ch]))%Z).
+Proof.
+  intros c Hv. split; [apply init_desc_prefix; exact Hv|]. split; [apply init_desc_valid; exact Hv|].
+  split; [apply init_desc_whole; exact Hv|]. intros ch rest. apply init_desc_maximal. exact Hv.
+Qed.
+
+(* 4. when is the responder disabled?  Exactly when the identity alone (5 digit port, empty description) plus the
+      bytes that JSON escaping adds to the description exceed the limit ... *)
+Theorem C19_disabled_iff : forall c, valid (desc0 c) ->
+  (l_enabled (init c) = false <->
+   (MAX_MESSAGE_LEN < identity_len c + (esclen (desc0 c) - rawlen (desc0 c)))%Z).
+Proof. exact disabled_iff. Qed.
+
+(*    ... hence (full statement: disabled iff the identity alone does not fit) only for descriptions without
+      characters that JSON escapes; C19_refuted_disabled_though_identity_fits shows the guard is needed ... *)
+Theorem C19_disabled_iff_identity_too_long_except_escapes : forall c,
+  valid (desc0 c) -> no_escapes (desc0 c) ->
+  (l_enabled (init c) = false <-> (MAX_MESSAGE_LEN < identity_len c)%Z).
+Proof.
+  intros c Hv Hn. rewrite (disabled_iff c Hv), (esclen_no_escapes _ Hn). split; intro; lia.
+Qed.
+
+(*    ... while an identity that does not fit always disables *)
+Theorem C19_identity_too_long_disables : forall c,
+  valid (desc0 c) -> (MAX_MESSAGE_LEN < identity_len c)%Z -> l_enabled (init c) = false.
+Proof.
+  intros c Hv H. apply (disabled_iff c Hv). pose proof (esclen_ge_rawlen (desc0 c)). lia.
+Qed.
+
+(* 5. each announcement or answer is a good datagram: it announces a tcp port of the interface list handed over by
+      the server, has at most 508 bytes, is valid UTF-8 and a JSON object carrying port, identity and description.
+      Guard: the responder is enabled or does not broadcast (finding C19/oversize-announcement-when-disabled,
+      C19_refuted_bounded_when_disabled) *)
+Theorem C19_sends_good_except_disabled_broadcast : forall c ins,
+  wf_cfg c -> (forall p, In p (ports_of (c_ifaces c)) -> p <= 65535) ->
+  l_enabled (init c) = true \/ c_bcast c = false ->
+  Forall (good_datagram c) (outs (run (init c) ins)).
+Proof. exact sends_good. Qed.
+
+(*    the ports announced are exactly those of the tcp interfaces in the list (in order); that the list holds the
+      interfaces actually opened is the pair of source facts server_passes_opened_interfaces /
+      interfaces_registered_after_open of C19_source_facts *)
+Theorem C19_ports_opened : forall c p,
+  In p (l_ports (init c)) <->
+  exists scheme, In (scheme, p) (c_ifaces c) /\ starts_with K_tcp (uri (scheme, p)) = true.
+Proof. intros c p. destruct (init_frame c) as (_ & _ & -> & _). apply ports_of_in. Qed.
+
+(* 6. answers iff discovery request: whatever a listening responder receives, it sends one message per port to the
+      sender if the datagram is a discovery request, and nothing otherwise (full strength) *)
+Theorem C19_answers_iff : forall l s data p a,
+  st s = Listening ->
+  outs (lstep l s (IRecv data p a)) = outs s ++ (if is_request data p then answers l (DAddr a) else []).
+Proof. exact answers_iff. Qed.
+
+Theorem C19_is_request_meaning : forall data p,
+  is_request data p = true <->
+  (exists text, utf8_decode (firstn recv_bufsize data) = Some text) /\
+  exists ms, p = PObj ms /\ lookup K_SECoP ms = Some (Some K_discover).
+Proof. exact is_request_spec. Qed.
+
+(* 7. keeps answering.  Full statement: every datagram leaves the responder listening.  Proved with the guard
+      "not a killer" (finding C19/killed-by-datagram, C19_refuted_survives): the responder survives a datagram iff
+      it is not invalid UTF-8, a JSON scalar, a JSON string containing SECoP or an array containing "SECoP" *)
+Theorem C19_survives_except_killers : forall l s data p a,
+  st s = Listening ->
+  (st (lstep l s (IRecv data p a)) = Listening <-> killer data p = false).
+Proof. intros l s data p a H. apply (survives_iff l s data p a H). Qed.
+
+(*    and over whole histories: after any sequence of datagrams none of which is a killer the responder listens
+      and has answered exactly the requests among them, in order *)
+Theorem C19_keeps_answering_except_killers : forall l ins,
+  l_enabled l = true -> Forall benign ins ->
+  st (run l ins) = Listening /\ outs (run l ins) = outs (start l) ++ flat_map (reply l) ins.
+Proof. exact keeps_answering. Qed.
+
+(* non-vacuity: a description of 300 euro signs is cut to 140 characters (whole characters: 3 bytes each), the
+   messages have 508 bytes, a request from sender 2 is answered once per tcp port, other datagrams are not *)
+Definition demo_cfg : cfg :=
+  {| c_eid := s2l "e"; c_version := s2l "v1"; c_desc := Some (repeat 8364 300);
+     c_ifaces := [(s2l "tcp", 10767); (s2l "ws", 8010); (s2l "tcp", 1)]; c_bcast := false |}.
+Example C19_demo :
+  let l := init demo_cfg in
+  let r := run l [IRecv (utf8_encode (s2l "{}")) (PObj []) 1; IRecv request_bytes request_parse 2] in
+  (l_enabled l, List.length (l_desc l), l_ports l, st r, map (fun o => (fst o, blen (snd o))) (outs r))
+  = (true, 140%nat, [10767; 1], Listening, [(DAddr 2, 508%Z); (DAddr 2, 504%Z)]).
+Proof. vm_compute. reflexivity. Qed.
+
 Print Assumptions C19_source_facts.
+Print Assumptions C19_bounded.
+Print Assumptions C19_wellformed.
+Print Assumptions C19_char_boundary.
+Print Assumptions C19_disabled_iff.
+Print Assumptions C19_disabled_iff_identity_too_long_except_escapes.
+Print Assumptions C19_identity_too_long_disables.
+Print Assumptions C19_sends_good_except_disabled_broadcast.
+Print Assumptions C19_ports_opened.
+Print Assumptions C19_answers_iff.
+Print Assumptions C19_is_request_meaning.
+Print Assumptions C19_survives_except_killers.
+Print Assumptions C19_keeps_answering_except_killers.
+Print Assumptions C19_refuted_survives.
+Print Assumptions C19_refuted_survives_general.
+Print Assumptions C19_refuted_disabled_though_identity_fits.
+Print Assumptions C19_refuted_bounded_when_disabled.
